@@ -55,7 +55,10 @@ func roJudge(mode int, e *roEntry, res roRun, streamLen int) (string, string) {
 			return res.pi.Signature(), res.pi.Value
 		}
 	case oracleWork:
-		if res.pi != nil && res.pi.Class == "work-budget" {
+		if res.rd.Exceeded || (res.pi != nil && res.pi.Class == "work-budget") {
+			if res.pi == nil {
+				return "unbounded-reading|" + e.name, "reader work budget exceeded (the library swallowed the sentinel)"
+			}
 			return "unbounded-reading|" + e.name, res.pi.Value
 		}
 		limit := int64(4*streamLen + 64<<10)
